@@ -135,6 +135,14 @@ def lin_time(v):
             return Lin({}, a[0][1] * 1_000_000)
         if op == 'ts_microseconds' and psi.is_int_const(a[0]):
             return Lin({}, a[0][1] * 1_000)
+        if op == 'ts_from_duration':
+            return lin_time(a[0])
+        if op == 'dur_new' and psi.is_int_const(a[0]) and psi.is_int_const(a[1]):
+            return Lin({}, a[0][1] * 1_000_000_000 + a[1][1])
+        if op == 'dur_from_nanos' and psi.is_int_const(a[0]):
+            return Lin({}, a[0][1])
+        if op == 'dur_from_micros' and psi.is_int_const(a[0]):
+            return Lin({}, a[0][1] * 1_000)
         if op == 'dur_from_secs' and psi.is_int_const(a[0]):
             return Lin({}, a[0][1] * 1_000_000_000)
         if op == 'dur_from_millis' and psi.is_int_const(a[0]):
